@@ -57,7 +57,8 @@ prop("C06", "proof", "Name.fullcompare is proved totally correct against the RFC
                   "A-order: bytes comparison is a strict total (lexicographic) order on octet strings; its transitivity is instantiated at the deciding label",
                   "L-sum: additivity of the finite sum wirelen (instantiated, not re-proved by the solver)"])
 prop("C07", "other", _GENERIC + "Proved: Name equality contract (shared with C06); dns.set.Set add/remove/discard and the in-place union, "
-     "intersection and difference against set theory over the abstract key set, including the self-aliasing cases; Rdataset.add and "
+     "intersection and difference against set theory over the abstract key set, including the self-aliasing cases; issubset, issuperset, "
+     "isdisjoint (both directions of the verdict, early exit included) and clear; Rdataset.add and "
      "update_ttl (a record of another class/type or a signature covering another type is refused and nothing changes; singleton "
      "types replace; TTL minimisation; the covered type is adopted only by an empty set that declared none), modular over Set.add. "
      "Rdata.__eq__ and __hash__ both go through the canonical form (class, type, relativity and to_digestable octets), with the lemma "
